@@ -198,6 +198,40 @@ func tokenizeOn(t tokenizers.ITokenizer, text string) (res tokResult) {
 	return res
 }
 
+// tokenizeOnTwice: one scanner, tokenized to the end, rewound with Reset() and tokenized again.
+func tokenizeOnTwice(t tokenizers.ITokenizer, text string) (first, second tokResult) {
+	sc := newCountScanner(text)
+	pass := func() (res tokResult) {
+		defer func() {
+			if p := recover(); p != nil {
+				res.panic = p
+			}
+			res.unreads = sc.unreads
+		}()
+		t.SetReader(sc)
+		limit := 4*len([]rune(text)) + 8
+		for {
+			tk := t.NextToken()
+			if tk == nil {
+				break
+			}
+			res.toks = append(res.toks, tokRec{tk.Type(), tk.Value(), tk.Line(), tk.Column()})
+			if len(res.toks) > limit {
+				panic(budgetExceeded{})
+			}
+		}
+		return res
+	}
+	first = pass()
+	if first.failed() {
+		return first, first
+	}
+	sc.Reset()
+	sc.steps = 0
+	second = pass()
+	return first, second
+}
+
 func tokenize(kind string, opts int, text string) tokResult {
 	t := newTokenizer(kind)
 	setOptions(t, opts)
